@@ -65,7 +65,9 @@ impl Model {
 pub struct Engine {
     pub ch: Arc<dyn Chan>,
     strms: Vec<Box<dyn Strm>>,
-    resv: VecDeque<(Resv, u64)>,
+    /// (reservation, event id, already filled?) -- a slot is written once: after a `try_send_reserved` that answered "retry" the library has looked at the
+    /// slot through its own pointer, and writing through the user's `&mut` again would only add an aliasing-model question none of the properties asks
+    resv: VecDeque<(Resv, u64, bool)>,
     held: VecDeque<Item>,
     next_id: u64,
     model: Model,
@@ -143,7 +145,7 @@ impl Engine {
             Op::Reserve => {
                 let expect = self.model.occupancy() < n;
                 match self.ch.reserve() {
-                    Some(r) => { if !expect { self.problem(format!("reserve_slot handed out a slot although all {n} were taken")) } let id = self.next_id; self.next_id += 1; self.resv.push_back((r, id)); self.model.reserved += 1; R::True }
+                    Some(r) => { if !expect { self.problem(format!("reserve_slot handed out a slot although all {n} were taken")) } let id = self.next_id; self.next_id += 1; self.resv.push_back((r, id, false)); self.model.reserved += 1; R::True }
                     None => { if expect { self.problem(format!("reserve_slot answered None although only {} of {n} slots were taken", self.model.occupancy())) } R::False }
                 }
             }
@@ -151,7 +153,7 @@ impl Engine {
                 let idx = if op == Op::SendResvOldest { 0 } else { self.resv.len() - 1 };
                 let expect = !self.movable_atomic() || idx == 0;
                 let id = self.resv[idx].1;
-                self.ch.fill(&self.resv[idx].0, id);
+                if !self.resv[idx].2 { self.ch.fill(&self.resv[idx].0, id); self.resv[idx].2 = true }
                 let mut ok = false;
                 for _ in 0..if expect { 64 } else { 1 } { if self.ch.try_send_reserved(&self.resv[idx].0) { ok = true; break } }
                 if ok {
